@@ -36,7 +36,7 @@ buffer, `r` (vectors only) a row view of a static 3×n matrix.
                            `C<o>` (read-only buffer view), `Q<o>.<i>` (row `i` of the matrix that views the buffer at `o`).  Matrix objects:
                            `M`, `P`, `V<o>` (mutable buffer view), `W<o>` (read-only).  Statements: `T add X` (`+=`), `T sub X` (`-=`),
                            `T mul X` (`*=`, component-wise), `T asg X` (`=`: copy assignment for equal storage types, otherwise the converting
-                           `operator=`), `T smul k<int>` / `T smul @X.<i>` (`*=` with an independent value / with a reference to element
+                           `operator=`), `T ctor X` (`T = static_<…>(X)`: converting constructor, then assignment), `T smul k<int>` / `T smul @X.<i>` (`*=` with an independent value / with a reference to element
                            `i` of `X`), `T set <i>:<int>` (`T.get_unsafe(i) = int`).  Result: all cells of the world, the values seen through the
                            target after every statement, and whether the operator returned the target.
 * `mems F R C E (T op X)+` — digest of the `mem` results over `va = a`, `vb = b`, `ma`, `mb` derived from `a`, `b`, for every
@@ -389,6 +389,7 @@ def execVec (isVec : Bool) (R C : Nat) (mem : Mem (memLen R C)) (t op x : String
             let (mem', tr') := copyAssign tr xr mem
             some (mem', some (refVals tr' mem'))
           else let mem' := assignConv tr xr mem; some (mem', some (refVals tr mem'))
+        else if op = "ctor" then let mem' := assignValue tr (copy xr mem) mem; some (mem', some (refVals tr mem'))
         else none
       | none => none
   | none => none
@@ -427,6 +428,7 @@ def execMat (R C : Nat) (mem : Mem (memLen R C)) (t op x : String) : Option (Mem
             let (mem', tr') := copyAssign tr xr mem
             some (mem', some (refVals tr' mem'))
           else let mem' := assignConv tr xr mem; some (mem', some (refVals tr mem'))
+        else if op = "ctor" then let mem' := assignValue tr (copy xr mem) mem; some (mem', some (refVals tr mem'))
         else none
       | none => none
   | none => none
